@@ -2836,16 +2836,16 @@ TWINS = list(TWINS) + [
        "                     paths_temp=paths_temp)\n")]),
     ("compress: warnings recorded through a local context manager", COMPRESS,
      [("import argparse\n", "import argparse\nimport contextlib\n"),
+      ("    with warnings.catch_warnings(record=True) as w:\n"
+       "        warnings.simplefilter(\"always\")\n",
+       "    with record_all_warnings() as w:\n"),
       ("def compress(\n",
        "@contextlib.contextmanager\n"
        "def record_all_warnings():\n"
        "    with warnings.catch_warnings(record=True) as w:\n"
        "        warnings.simplefilter(\"always\")\n"
        "        yield w\n\n\n"
-       "def compress(\n"),
-      ("    with warnings.catch_warnings(record=True) as w:\n"
-       "        warnings.simplefilter(\"always\")\n",
-       "    with record_all_warnings() as w:\n")]),
+       "def compress(\n")]),
 ]
 
 MUTANTS = list(MUTANTS) + [
